@@ -23,6 +23,20 @@ pub(crate) fn user_kind(e: &Error) -> Option<&UserError> {
 
 use crate::verif_kani::ini;
 
+/// Contract-equivalent stand-in for `impl From<proto::Error> for Error` (verified by
+/// `err_from_proto_fidelity`): identical on Reset / GoAway; for Io it keeps the kind and drops the message
+/// (the real body boxes the message into an `io::Error`, whose tagged-pointer representation costs CBMC
+/// minutes).  Used via `#[kani::stub]` by harnesses of *callers* only.
+pub(crate) fn stub_from_proto(src: proto::Error) -> Error {
+    Error {
+        kind: match src {
+            proto::Error::Reset(id, r, i) => Kind::Reset(id, r, i),
+            proto::Error::GoAway(d, r, i) => Kind::GoAway(d, r, i),
+            proto::Error::Io(kind, _) => Kind::Io(kind.into()),
+        },
+    }
+}
+
 #[cfg(kani)]
 mod proofs {
     use super::*;
